@@ -3,6 +3,7 @@ from __future__ import annotations
 
 from flamapy.metamodels.fm_metamodel.operations import FMEstimatedConfigurationsNumber
 
+from .. import build as bd
 from .. import engine, sem
 from .. import shadow as sh
 from ..engine import Fail
@@ -24,12 +25,55 @@ def cases(tier, seed):
         for link in ((1, 1), (0, 1)):
             for g in GROUPS:
                 yield ('DC', n, link, g)
+    # one wide group of leaves ([a..b] over more than 64 / 128 / 256 children) and a root with thousands of
+    # optional leaves (a count of several thousand digits), without and with one requires constraint
+    for n in (65, 66, 129, 257):
+        for (a, b) in ((0, 2), (1, 3), (2, n - 1), (n // 2, n // 2), (0, n), (n, n)):
+            yield ('WIDE', 'group', n, a, b, False)
+    for n in (1000, 15000):
+        yield ('WIDE', 'optional', n, 0, 1, False)
+        yield ('WIDE', 'optional', n, 0, 1, True)
+    yield ('WIDE', 'group', 129, 1, 3, True)
 
 
 def describe(case):
+    if case[0] == 'WIDE':
+        return 'WIDE:%s, %d leaves, [%d..%d]%s' % (case[1], case[2], case[3], case[4], ', L0 requires L1' if case[5] else '')
     if case[0] == 'DC':
         return 'DC:chain of %d levels linked by %s with a %s every 100 levels' % (case[1], list(case[2]), case[3])
     return describe_base(case)
+
+
+def _wide(case):
+    import math
+    from flamapy.metamodels.fm_metamodel.models import Feature, FeatureModel, Relation
+    _k, shape, n, a, b, with_ctc = case
+    root = Feature('Fa', [])
+    leaves = [Feature('L%d' % i, []) for i in range(n)]
+    if shape == 'group':
+        root.add_relation(Relation(root, leaves, a, b))
+        tree = sum(math.comb(n, k) for k in range(a, b + 1))
+        # selections with L0 and without L1 are excluded by the constraint
+        excluded = sum(math.comb(n - 2, k - 1) for k in range(max(a, 1), b + 1) if 0 <= k - 1 <= n - 2)
+    else:
+        for leaf in leaves:
+            root.add_relation(Relation(root, [leaf], 0, 1))
+        tree = 2 ** n
+        excluded = 2 ** (n - 2)
+    ctcs = [bd.constraint('c1', ('REQUIRES', 'L0', 'L1'))] if with_ctc else []
+    fm = FeatureModel(root, ctcs)
+    engine.tick(n)
+    try:
+        res = FMEstimatedConfigurationsNumber().execute(fm).get_result()
+    except Exception as exc:  # noqa: BLE001
+        return [Fail('raises:%s' % type(exc).__name__, str(exc)[:120])]
+    if isinstance(res, bool) or not isinstance(res, int):
+        return [Fail('result-not-int', type(res).__name__)]
+    if (not with_ctc and res != tree) or (with_ctc and res < tree - excluded):
+        return [Fail('estimate', {'estimate (digits)': len(str(res)) if res > 10 ** 60 else res, 'exact (digits)': len(str(tree)) if tree > 10 ** 60 else tree,
+                                  'difference': str(res - (tree if not with_ctc else tree - excluded))[:40]})]
+    engine.validated()
+    return []
 
 
 def _deep_chain(case):
@@ -96,6 +140,8 @@ def judge(res, model):
 def check(case):
     if case[0] == 'DC':
         return _deep_chain(case)
+    if case[0] == 'WIDE':
+        return _wide(case)
     model = opscfg.resolve(case)
     if case[0] == 'SE':
         return opscfg.edit_history(model, FMEstimatedConfigurationsNumber, judge)
@@ -116,6 +162,8 @@ def check(case):
 
 
 def outcome(case):
+    if case[0] == 'WIDE':
+        return 'wide'
     if case[0] == 'DC':
         return 'deep-chain'
     if case[0] == 'B':
